@@ -330,7 +330,8 @@ class System(BaseModel, Serializable):
         :returns: A [`VariableList`][amisc.variable.VariableList] containing all inputs from the components.
         """
         all_inputs = ChainMap(*[comp.inputs for comp in self.components])
-        return VariableList({k: all_inputs[k] for k in all_inputs.keys() - self.outputs().keys()})
+        outputs = self.outputs()
+        return VariableList({k: all_inputs[k] for k in all_inputs if k not in outputs})  # keeps a deterministic order
 
     def outputs(self) -> VariableList:
         """Collect all outputs from each component in the `System` and combine them into a
@@ -347,8 +348,8 @@ class System(BaseModel, Serializable):
         :returns: A [`VariableList`][amisc.variable.VariableList] containing all coupling variables from the components.
         """
         all_outputs = self.outputs()
-        return VariableList({k: all_outputs[k] for k in (all_outputs.keys() &
-                             ChainMap(*[comp.inputs for comp in self.components]).keys())})
+        all_inputs = ChainMap(*[comp.inputs for comp in self.components])
+        return VariableList({k: all_outputs[k] for k in all_outputs if k in all_inputs})  # keeps a deterministic order
 
     def variables(self):
         """Iterator over all variables in the system (inputs and outputs)."""
@@ -1055,7 +1056,7 @@ class System(BaseModel, Serializable):
                 # Set the initial guess for all coupling vars (middle of domain)
                 scc_inputs = ChainMap(*[self[comp].inputs for comp in scc])
                 scc_outputs = ChainMap(*[self[comp].outputs for comp in scc])
-                coupling_vars = [scc_inputs.get(var) for var in (scc_inputs.keys() - x.keys()) if var in scc_outputs]
+                coupling_vars = [scc_inputs.get(var) for var in scc_inputs if var not in x and var in scc_outputs]
                 coupling_prev = {}
                 for var in coupling_vars:
                     domain = var.get_domain()
